@@ -119,16 +119,17 @@ def c_cfg_mate(R, sy):
     return _cfg("SubsetMateSelectionConfiguration", numpy.array([1, 2, 3]), sy, R, xconfig_xmap=_box(xmap, sy))
 
 
-def _mate(prot, npar):
+def _mate(prot, npar, nself=0):
     def f(R, sy):
         import importlib
         mod = importlib.import_module("pybrops.breed.prot.mate." + prot)
         p = getattr(mod, prot)(rng=R)
-        pg = _pgmat(3 if npar >= 3 else 2, 2)
+        # (selfing generations: one marker, the meioses of every generation must draw from the protocol's own stream)
+        pg = _pgmat(3 if npar >= 3 else 2, 2 if nself == 0 else 1)
         xc = numpy.array([[i % pg.ntaxa for i in range(npar)]])
-        prog = p.mate(pg, xc, 1, 1, nself=0)
+        prog = p.mate(pg, xc, 1, 1, nself=nself)
         return prog.mat
-    f.__name__ = "c_" + prot
+    f.__name__ = "c_" + prot + ("_self%d" % nself if nself else "")
     return f
 
 
@@ -593,13 +594,18 @@ def c_twin_ignores_rng(R, sy):
 
 
 COMP["twin_ignores_rng"] = c_twin_ignores_rng
+SELFED = dict(twoway_self=("TwoWayCross", 2), selfc_self=("SelfCross", 1), threeway_self=("ThreeWayCross", 3), fourway_self=("FourWayCross", 4),
+              twowaydh_self=("TwoWayDHCross", 2), threewaydh_self=("ThreeWayDHCross", 3))
+for _k, (_p, _n) in SELFED.items():
+    COMP[_k] = _mate(_p, _n, nself=1)
+    TAKES_RNG.append(_k)
 KNOWN_GA = "C08-genetic-algorithms-ignore-the-supplied-generator"
 GA_COMPONENTS = ("ga", "nsga2")
 
 
 def obligations(tier):
     obs = []
-    quick_single = ["select_real", "select_integer", "select_binary", "pheno", "pheno_copy", "spawn", "wrappers", "tiled", "sus", "axis", "outcross", "cfg_subset", "cfg_real", "cfg_integer", "cfg_mate", "twoway", "twowaydh", "hillclimb", "ga", "select", "jitter"]
+    quick_single = ["select_real", "select_integer", "select_binary", "pheno", "pheno_copy", "spawn", "wrappers", "tiled", "sus", "axis", "outcross", "cfg_subset", "cfg_real", "cfg_integer", "cfg_mate", "twoway", "twowaydh", "hillclimb", "ga", "select", "jitter", "twoway_self", "threeway_self"]
     # (the four-way DH cross with two markers exceeds the path budget when executed twice)
     all_single = [c for c in COMP if not c.startswith("twin") and (c not in OBJ or c.startswith("pheno")) and c != "fourwaydh"]
     singles = quick_single if tier == "quick" else all_single
